@@ -22,7 +22,7 @@ template <class C> void Exec<C>::exec_op(int i) {
         if (s < 0 || s >= N_USLOTS || us[s].state == S_EMPTY) break;
         o.skipped = false;
         event("op %d free u%d state=%d", i, s, us[s].state);
-        if (mgr_of(op.mgr).kind == MK_INCOMPLETE && us[s].state == S_VALID) {
+        if (mgr_of(op.mgr).kind == MK_INCOMPLETE && (us[s].state == S_VALID || us[s].state == S_STALE)) {
             // the release call itself must reject an incomplete manager before touching anything
             MgrInst& im = mgr_of(op.mgr); Uri* u = us[s].u; std::string before = snapshot(u); volatile int rc = 0;
             if (!call(i, s, op.mgr, FaultPlan(), [&] { rc = A::FreeUriMembersMm(u, im.table); })) { o.aborted = true; break; }
